@@ -415,11 +415,11 @@ def check_merge(x, ua, ub, delta, tol):
     if reporting.u_component(r, a) != ua or reporting.u_component(r, b) != ub: return 'merge components'
     return None
 
-def check_implicit(fam, a0, ua, lo, hi):
+def check_implicit(fam, a0, ua, lo, hi, dep=False):
     """root strictly inside the bracket (the bracket-end case is the known finding)"""
     from GTC import core, function, reporting
     new_context(43)
-    a = core.ureal(a0, ua)
+    a = core.ureal(a0, ua, independent=not dep)
     fn, root, dxda = {'lin': (lambda v: v - a, a0, 1.0), 'sq': (lambda v: v * v - a, math.sqrt(a0), 0.5 / math.sqrt(a0)),
                       'exp': (lambda v: core.exp(v) - a, math.log(a0), 1.0 / a0)}[fam]
     if not (lo + 1e-6 < root < hi - 1e-6): return None
@@ -441,7 +441,7 @@ def run_check(f):
     if k == 'mul2': return check_mul2_real(f['x1'], f['u1'], f['x2'], f['u2'], f['estimated'])
     if k in ('mod', 'fmod'): return check_mod(f['x'], f['u'], f['y'], k)
     if k == 'merge': return check_merge(f['x'], f['ua'], f['ub'], f['delta'], f['tol'])
-    if k == 'implicit': return check_implicit(f['family'], f['a0'], f['ua'], f['lo'], f['hi'])
+    if k == 'implicit': return check_implicit(f['family'], f['a0'], f['ua'], f['lo'], f['hi'], f.get('dep', False))
     if k == 'implicit_end': return None if not kf_C20_implicit_end()[0] else 'known'
     return None
 
@@ -459,7 +459,7 @@ def search(rng, tier, broken):
             f = {'kind': 'merge', 'x': rv(rng), 'ua': ru(rng), 'ub': ru(rng), 'delta': rng.choice([0.0, 3e-14, 1e-12, 0.25]), 'tol': rng.choice([1e-13, 1e-6])}
         else:
             f = {'kind': 'implicit', 'family': rng.choice(['lin', 'sq', 'exp']), 'a0': rng.uniform(0.5, 4.0), 'ua': ru(rng),
-                 'lo': rng.choice([0.01, -0.5 if False else 0.05]), 'hi': rng.uniform(2.5, 6.0)}
+                 'lo': rng.choice([0.01, -0.5 if False else 0.05]), 'hi': rng.uniform(2.5, 6.0), 'dep': rng.random() < 0.5}
             if f['family'] == 'exp': f['lo'] = -2.0
         try:
             p = run_check(f)
